@@ -336,6 +336,11 @@ func c07Mutate(seed []byte, c c07Case) ([]byte, bool) {
 						if c.B == 1 {
 							nl = append(append([]byte{}, line[:m[5]]...), '\n')
 						}
+						// a value that consists of blanks only (B=2: one blank, 3: three blanks, 4: a tab, 5: blanks and a tab)
+						if c.B >= 2 {
+							nl = append(append([]byte{}, line[:m[7]]...), []string{" ", "   ", "\t", "  \t "}[(c.B-2)%4]...)
+							nl = append(nl, '\n')
+						}
 					case "widen":
 						nl = append(append(append(nl, line[:m[5]]...), bytes.Repeat([]byte{'X'}, c.B)...), line[m[5]:]...)
 					}
@@ -750,6 +755,9 @@ func init() {
 					}
 					eval(c07Case{Kind: "scan", Seed: name, Mut: "novalue", A: i, B: 0}, 200000+i)
 					eval(c07Case{Kind: "scan", Seed: name, Mut: "novalue", A: i, B: 1}, 200000+i)
+					for b := 2; b <= 5; b++ {
+						eval(c07Case{Kind: "scan", Seed: name, Mut: "novalue", A: i, B: b}, 200000+i)
+					}
 					for _, w := range []int{1, 2, 5} {
 						eval(c07Case{Kind: "scan", Seed: name, Mut: "widen", A: i, B: w}, 200000+i)
 					}
